@@ -86,8 +86,9 @@ def regen():
     """T-gen: regenerate lean/Netpoll/Gen/*.lean and work/facts.json from /repo's working tree."""
     with Lock('gen'):
         exe = os.path.join(BIN, 'extract')
-        src = os.path.join(VERIF, 'tools/extract/main.go')
-        if not os.path.exists(exe) or os.path.getmtime(exe) < os.path.getmtime(src):
+        srcdir = os.path.join(VERIF, 'tools/extract')
+        newest = max(os.path.getmtime(os.path.join(srcdir, f)) for f in os.listdir(srcdir) if f.endswith('.go'))
+        if not os.path.exists(exe) or os.path.getmtime(exe) < newest:
             os.makedirs(BIN, exist_ok=True)
             rc, o = sh(['go', 'build', '-o', exe, '.'], cwd=os.path.join(VERIF, 'tools/extract'), env=go_env(), timeout=600)
             if rc != 0:
